@@ -114,20 +114,23 @@ func (s *LocalSubscriber) HistoryDispatched(responseLastEventID string) {
 
 // Disconnect disconnects the subscriber.
 func (s *LocalSubscriber) Disconnect() {
+	s.outMutex.Lock()
+	defer s.outMutex.Unlock()
+
 	if atomic.LoadInt32(&s.disconnected) > 0 {
 		return
 	}
-
-	s.outMutex.Lock()
-	defer s.outMutex.Unlock()
 
 	atomic.StoreInt32(&s.disconnected, 1)
 	close(s.out)
 }
 
 // handleFullChan disconnects the subscriber when the out channel is full.
+// Must be called with outMutex held: the channel is closed so that the stream ends
+// once what is already buffered has been consumed.
 func (s *LocalSubscriber) handleFullChan() {
 	atomic.StoreInt32(&s.disconnected, 1)
+	close(s.out)
 	s.outMutex.Unlock()
 
 	if c := s.logger.Check(zap.ErrorLevel, "subscriber unable to receive updates fast enough"); c != nil {
